@@ -1,6 +1,4 @@
-From Coq Require Import String Ascii ZArith List DecimalString.
-Open Scope string_scope.
-Check String.compare. Check String.prefix. Check String.eqb. Check String.ltb.
-Eval vm_compute in NilZero.string_of_int (Z.to_int (-120)%Z).
-Eval vm_compute in NilZero.string_of_int (Z.to_int 0%Z).
-Eval vm_compute in String.compare "ab" "b".
+From Coq Require Import String Ascii ZArith List Bool.
+Check String.compare_antisym. Check String.compare_eq_iff. Print String.ltb. Print String.leb. Check String.eqb_eq.
+Print Z.ltb. Print Z.leb. Print Z.eqb. Check Z.compare_antisym. Check Z.compare_eq_iff. Print Bool.compare.
+Check Z.eqb_compare. Check String.eqb_compare.
